@@ -196,7 +196,7 @@ def r3(ctx):
     for blk, t in plus:
         okq = False
         for pl, vals, other, a in discr_guard_variants(b, blk):
-            if (pl["local"] == ety or root_local(b, {"copy": {"local": pl["local"], "proj": []}}) == ety) and vals == [vidx.get("Query")]:
+            if (pl["local"] == ety or root_local(b, {"copy": {"local": pl["local"], "proj": []}}, through_refs=True) == ety) and vals == [vidx.get("Query")]:
                 okq = True
         for a, s, cnd, truth in guard_conditions(b, blk):
             if cnd["kind"] == "call" and ety in b.slice([cnd["term"]["dest"]["local"]]).locals:
@@ -211,7 +211,7 @@ def r3(ctx):
     for eb, i, s in sites:
         v = s["rv"]["variant"]
         for pl, vals, other, a in discr_guard_variants(b, eb):
-            if pl["local"] == ety or root_local(b, {"copy": {"local": pl["local"], "proj": []}}) == ety:
+            if pl["local"] == ety or root_local(b, {"copy": {"local": pl["local"], "proj": []}}, through_refs=True) == ety:
                 by.setdefault(v, set()).update(vals)
     want = {"InvalidURIPath": {vidx.get("Path")}, "MalformedQueryString": {vidx.get("Query")}}
     if by != want or len(sites) != 4:
